@@ -65,6 +65,11 @@ func c11Check(c c11Case) string {
 	if cr := res.Crashed(); cr != "" {
 		return head + cr
 	}
+	if res.LateReadBytes > 70000 {
+		// one Read in flight and the rest of the current row may still be consumed (the scanner's buffer is <= 64 KiB); more
+		// than that means a goroutine went on reading the caller's input after the call had returned
+		return fmt.Sprintf("%sthe call returned (%s) but %d more bytes were read from the caller's reader afterwards", head, errOrNil(res), res.LateReadBytes)
+	}
 	if res.Leaked != "" {
 		return fmt.Sprintf("%sthe call returned (%s) but goroutines it started are still there after the settling period:\n%s", head, errOrNil(res), truncate(res.Leaked, 3000))
 	}
@@ -290,6 +295,52 @@ func TestC11Race(t *testing.T) {
 	})
 }
 
+// One long root block (hundreds of kilobytes below a single root / heading), cancelled early or failing early: whatever
+// happens, nobody may go on consuming the caller's reader after the call has returned.
+func TestC11LongBlock(t *testing.T) {
+	col := coll("C11", "long-block")
+	col.Rule = "documents with ONE root block of 200..400 KiB (list root or # heading with thousands of items) x operation x early cancellation (byte offset 0..2000, at a callback, at a write) or an early failing line x reader chunking; oracle: the reader is not consumed after return (<= 70000 bytes), no leak, context error"
+	n := 0
+	for _, heading := range []bool{false, true} {
+		for _, size := range []int{12000, 25000} {
+			var sb strings.Builder
+			if heading {
+				sb.WriteString("# root\n")
+			} else {
+				sb.WriteString("- root\n")
+			}
+			for i := 0; i < size; i++ {
+				if heading {
+					fmt.Fprintf(&sb, "- item-%d\n", i)
+				} else {
+					fmt.Fprintf(&sb, "  - item-%d\n", i)
+				}
+			}
+			doc := sb.String()
+			bad := strings.Replace(doc, "item-3\n", "item-3\n  x no bullet\n", 1)
+			for _, op := range []string{"text", "json", "walk", "dryrun"} {
+				var cases []c11Case
+				for _, k := range []int{0, 7, 150, 2000} {
+					cases = append(cases, c11Case{Doc: []byte(doc), Op: op, Faults: ops.NoFaults(), Cancel: ops.Cancel{Kind: "atOffset", K: k}, Sched: ops.Sched{ReadChunk: []int{64, 1000, 4096}[k%3]}, Blocks: 1})
+				}
+				cases = append(cases, c11Case{Doc: []byte(doc), Op: op, Faults: ops.NoFaults(), Cancel: ops.Cancel{Kind: "pre"}, Sched: ops.Sched{ReadChunk: 512}, Blocks: 1})
+				cases = append(cases, c11Case{Doc: []byte(bad), Op: op, Faults: ops.NoFaults(), Sched: ops.Sched{ReadChunk: 256}, Blocks: 1, Failing: 1})
+				for _, c := range cases {
+					n++
+					if n%nshards != shard {
+						continue
+					}
+					c11Record(col, c)
+					if msg := c11Check(c); msg != "" {
+						violation(t, "C11", "c11", c, msg)
+					}
+				}
+			}
+		}
+	}
+	col.Exhaustive = true
+}
+
 // every cancellation offset, reader offset, writer index and callback index of a panel of small documents
 func TestC11Enumerate(t *testing.T) {
 	col := coll("C11", "enumerate")
@@ -302,6 +353,9 @@ func TestC11Enumerate(t *testing.T) {
 	if thorough() {
 		model.EnumForests(3, []string{"a", "b"}, func(f model.Forest) {
 			g := append(f.Clone(), &model.T{Name: "x", Kids: []*model.T{{Name: "y"}}}, &model.T{Name: "z"})
+			if hasDupRoots(g) {
+				uniqRoots(g) // equally named roots make massive Mkdir fail with "path already exists" (known finding of C10)
+			}
 			docs = append(docs, model.Spell(g, model.Plain2))
 		})
 	}
